@@ -83,7 +83,7 @@ def input_vars(rec):
 def run(ctx):
     ctx.rule = ("(a) random operation sequences on the tensor cursor; (b) emitted trees of G1-G5 specifications (plain) through the rank-id interpreter; (c) the same programs executed on "
                 "2 random inputs; non-trivial = program with a partitioning or swizzle statement; distinct = distinct text / operation sequence")
-    ctx.trusted = ["Lean kernel; Props/C07 (cursor level)", "RankIds.interp is an executable reading of the rank-id effect of the fibertree calls (no soundness theorem); data-level facts "
+    ctx.trusted = ["Lean kernel; Props/C07 (cursor level), Props/C07Heap (heap of tensor objects with aliasing)", "RankHeap.chk (C07.chk_sound: one pass over the tree is sound for every execution) over the rank-id effect of each fibertree call as read in RankIds.methodIds; the translator Stmt -> Prog (Driver.progOf) is part of the tie; data-level facts "
                    "(inputs unmodified, original coordinates) are observed by execution on sampled inputs", "cursor model = teaal.ir.tensor.Tensor is sampled"]
     rng = random.Random(ctx.seed * 769 + 7)
     k = 1 if ctx.tier == "quick" else 8
@@ -106,18 +106,29 @@ def run(ctx):
             ctx.stat(("rejected_" if r["err_kind"] == "ValueError" else "compile_crash_") + str(r["err_kind"])); continue
         ctx.case([r["text"]], nontrivial=any(s in r["text"] for s in ("split", "swizzle", "flatten")))
         ctx.stat("gen_" + r["gen"])
-        reqs.append({"op": "rankids", "tree": r["tree"], "inputs": input_vars(r)}); metas.append(r)
+        reqs.append({"op": "rankheap", "tree": r["tree"], "inputs": input_vars(r)}); metas.append(r)
     names = None
-    for r, a in zip(metas, common.lean_batch(reqs)):
+    # the earlier straight-line interpreter (no theorem) stays as a second reading: where it accepts, the two must agree on the
+    # rank ids of every variable alive at the end of the program
+    old = common.lean_batch([dict(q, op="rankids") for q in reqs])
+    for (r, a), a0 in zip(zip(metas, common.lean_batch(reqs)), old):
         if "error" in a:
             raise common.InternalError("lean: " + a["error"])
+        ctx.stat("tensor_ops", a.get("ops", 0)); ctx.stat("loops", a.get("loops", 0)); ctx.stat("tensor_ops_inside_loops", a.get("tensor_ops_inside_loops", 0))
+        if a["ok"] and a0.get("ok"):
+            f1, f0 = dict((x, ids) for x, ids in a["final"]), dict((x, ids) for x, ids in a0["final"])
+            agree = all(f0.get(x) == ids for x, ids in f1.items())
+            ctx.ob(agree)
+            if not agree:
+                ctx.violation(dict(kind="rank-ids-readings-differ", yaml=r["yaml"], heap=a["final"], straight_line=a0["final"],
+                                   obligation="RankHeap.chk and RankIds.interp agree on the variables alive at the end"), False)
         decl = r["yaml"]["einsum"]["declaration"]
         problems = []
         if not a["ok"]:
             problems.append(a["why"])
         else:
             final = dict((x, ids) for x, ids in a["final"])
-            for x, ids in final.items():
+            for x, ids in list(final.items()) + [(x, ids) for x, ids in a.get("scoped", [])]:
                 n, _, rk = x.partition("_")
                 if n in decl and "_" in x:
                     if rk.endswith("_flat"):
